@@ -764,7 +764,7 @@ def subchecks(tier):
         return [Sub("scenarios", _scenarios(300, 3), shards=10, weight=3),
                 Sub("subscriptions", _subscriptions(250, 3), shards=3, weight=1),
                 Sub("backpressure", _backpressure(150), shards=3, weight=1)]
-    return [Sub("scenarios", _scenarios(16000, 8), shards=16, weight=3),
+    return [Sub("scenarios", _scenarios(9000, 8), shards=16, weight=3),
             Sub("subscriptions", _subscriptions(6000, 6), shards=16, weight=1),
             Sub("backpressure", _backpressure(3000), shards=16, weight=1)]
 
